@@ -203,6 +203,8 @@ func threadType(t string) string {
 		return "(List UInt8)"
 	case strings.HasPrefix(t, "cb_"):
 		return "(List (Int64 × Int64))"
+	case t == "w":
+		return "Go.World"
 	}
 	return "Unit"
 }
@@ -314,6 +316,9 @@ func (c *leafCtx) effectsOfCalls(n ast.Node, local map[string]bool, out map[stri
 		if !ok {
 			return true
 		}
+		if c.marksWorld(ce) {
+			out["w"] = true
+		}
 		switch {
 		case isPkgCall(ce, "rand", "Read") && len(ce.Args) == 1:
 			out["rnd"] = true
@@ -374,6 +379,9 @@ func (c *leafCtx) assigned7(stmts []ast.Stmt, local map[string]bool, out map[str
 		case *ast.AssignStmt:
 			for _, r := range st.Rhs {
 				c.effectsOfCalls(r, local, out)
+				if c.marksWorld(r) {
+					out["w"] = true
+				}
 			}
 			for _, l := range st.Lhs {
 				if _, plain := l.(*ast.Ident); !plain {
@@ -403,6 +411,8 @@ func (c *leafCtx) assigned7(stmts []ast.Stmt, local map[string]bool, out map[str
 			}
 		case *ast.ExprStmt:
 			c.effectsOfCalls(st.X, local, out)
+		case *ast.GoStmt:
+			out["w"] = true
 		case *ast.ReturnStmt:
 			for _, r := range st.Results {
 				c.effectsOfCalls(r, local, out)
@@ -616,6 +626,9 @@ func (c *leafCtx) stmt7(s ast.Stmt, next func(string) string, ind string) string
 		return "0"
 	}
 	nl := "\n" + ind
+	if r, ok := c.stmt8(s, next, ind); ok {
+		return r
+	}
 	switch st := s.(type) {
 	case *ast.EmptyStmt:
 		return next(ind)
@@ -1443,6 +1456,8 @@ func (c *leafCtx) zero(t string) string {
 		return "([] : " + leanTypeName(t) + ")"
 	case strings.HasPrefix(t, "C_"):
 		return "(Go.Slice.nil : " + leanTypeName(t) + ")"
+	case strings.HasPrefix(t, "R_"):
+		return "(none : " + leanTypeName(t) + ")"
 	case strings.HasPrefix(t, "A") && strings.Contains(t, "_"):
 		n, et := arrayParts(t)
 		if z := c.zero(et); z != "" && n >= 0 {
@@ -1625,14 +1640,17 @@ var globalInfo = map[string]*leafInfo{}
 var mathConsts = map[string]string{
 	"MaxInt": "9223372036854775807", "MinInt": "-9223372036854775808", "MaxInt64": "9223372036854775807", "MinInt64": "-9223372036854775808",
 	"MaxInt32": "2147483647", "MinInt32": "-2147483648", "MaxInt16": "32767", "MaxInt8": "127",
-	"MaxUint32": "4294967295", "MaxUint16": "65535", "MaxUint8": "255",
+	"MaxUint32": "4294967295", "MaxUint16": "65535", "MaxUint8": "255", "MaxUint64": "18446744073709551615",
 }
 
-// sharedExtern: external values read once per call of the outermost leaf (documented assumption of
-// the fifth and sixth generation) keep their name through calls; all others are per call site
+// sharedExtern: parameters handed on to callees under their own name — the function-typed ones
+// (math.Pow: a deterministic function, applied to the arguments of each call site) and the
+// iteration budget. Every other external value is a reading of state outside the function: one
+// parameter per call site (eighth generation; the fifth and sixth shared `ext_Epoch`,
+// `ext_clkEpoch`, `ext_clkNow` between sites, which hid a second reading).
 func sharedExtern(n string) bool {
 	switch n {
-	case "ext_Epoch", "ext_clkEpoch", "ext_Pow", "ext_clkNow", "ext_fuel":
+	case "ext_Pow", "ext_fuel":
 		return true
 	}
 	return false
@@ -1675,6 +1693,9 @@ func (c *leafCtx) constIndex(e ast.Expr) (int, bool) {
 
 // expr7 translates the expression forms of the seventh generation; ok = false: not one of them
 func (c *leafCtx) expr7(e ast.Expr, want string) (string, string, bool) {
+	if s, t, ok := c.expr8(e, want); ok {
+		return s, t, true
+	}
 	switch x := e.(type) {
 	case *ast.StarExpr:
 		s, t := c.expr(x.X, want)
@@ -1877,6 +1898,11 @@ func (c *leafCtx) expr7(e ast.Expr, want string) (string, string, bool) {
 					}
 					if c.mentionsVar(x.Args[1]) { // run-time length: a negative one panics
 						n, nt := c.expr(x.Args[1], "Int64")
+						if nt == "UInt16" || nt == "UInt8" || nt == "UInt32" { // an unsigned length below 2^63: never negative
+							if r, ok := convert(n, nt, "Int64"); ok {
+								n, nt = r, "Int64"
+							}
+						}
 						if nt == "Int64" {
 							v := c.fresh("_s")
 							c.binds = append(c.binds, c.bindLine("(Go.makeBytesN? "+n+")", v, "opt:makeslice"))
@@ -1971,10 +1997,11 @@ func (c *leafCtx) call7(ce *ast.CallExpr, li *leafInfo, recv ast.Expr) (string, 
 		r, _ := c.expr(recv, "")
 		args = append(args, r)
 	}
-	if len(ce.Args) != li.nparams && li.nparams >= 0 {
-		c.fail("call with %d arguments of a leaf with %d parameters", len(ce.Args), li.nparams)
+	ceArgs := c.dataArgs(ce.Args) // loggers are dropped (leaf8.go)
+	if len(ceArgs) != li.nparams && li.nparams >= 0 {
+		c.fail("call with %d arguments of a leaf with %d parameters", len(ceArgs), li.nparams)
 	}
-	for _, a := range ce.Args {
+	for _, a := range ceArgs {
 		if u, ok := a.(*ast.UnaryExpr); ok && u.Op == token.AND {
 			a = u.X
 		}
@@ -1989,8 +2016,8 @@ func (c *leafCtx) call7(ce *ast.CallExpr, li *leafInfo, recv ast.Expr) (string, 
 	for _, o := range li.outs {
 		if o == "recv" {
 			pats = append(pats, outVar(recv))
-		} else if i, err := strconv.Atoi(o); err == nil && i < len(ce.Args) {
-			pats = append(pats, outVar(ce.Args[i]))
+		} else if i, err := strconv.Atoi(o); err == nil && i < len(ceArgs) {
+			pats = append(pats, outVar(ceArgs[i]))
 		}
 	}
 	for _, t := range li.threads {
@@ -2001,14 +2028,7 @@ func (c *leafCtx) call7(ce *ast.CallExpr, li *leafInfo, recv ast.Expr) (string, 
 		pats = append(pats, t)
 	}
 	for _, e := range li.externs {
-		parts := strings.SplitN(e, " : ", 2)
-		n := parts[0]
-		if !sharedExtern(n) {
-			short := strings.ReplaceAll(li.lean[strings.Index(li.lean, "_")+1:], ".", "_")
-			n = c.siteName(ce.Pos()+token.Pos(len(n)), "ext_"+short+"_"+strings.TrimPrefix(n, "ext_"))
-		}
-		c.addExtern(n, parts[1])
-		args = append(args, n)
+		args = append(args, c.externOfCallee(ce.Pos(), li.lean, e))
 	}
 	if c.fileDeps == nil {
 		c.fileDeps = map[string]bool{}
@@ -2253,6 +2273,8 @@ func (c *leafCtx) translate7(ds *dirState, l leaf7Spec, fd *ast.FuncDecl, fset *
 	c.gen7, c.mode = true, mode
 	c.ren, c.declDepth, c.sites, c.nsite = map[string]string{}, map[string]int{}, map[token.Pos]string{}, map[string]int{}
 	c.callbacks = map[string][]string{}
+	c.logVars = map[string]bool{}
+	c.leanSelf = l.lean
 	c.depth = 1
 	info := &leafInfo{lean: l.lean, mode: mode}
 	var params []string
@@ -2276,6 +2298,18 @@ func (c *leafCtx) translate7(ds *dirState, l leaf7Spec, fd *ast.FuncDecl, fset *
 			c.callbacks[n] = sig
 			return
 		}
+		if isLoggerType(t) { // loggers are dropped: logging has no effect on the model (leaf8.go)
+			c.logVars[n] = true
+			return
+		}
+		if ot := opaqueType(t); ot != "" { // an opaque foreign object: its methods become function-typed externals (leaf8.go)
+			if c.opaque == nil {
+				c.opaque = map[string]string{}
+			}
+			c.opaque[n] = ot
+			c.logVars[n] = true // not counted as a parameter
+			return
+		}
 		lt := c.leanType(t)
 		if lt == "" {
 			c.fail("unsupported parameter type")
@@ -2284,9 +2318,15 @@ func (c *leafCtx) translate7(ds *dirState, l leaf7Spec, fd *ast.FuncDecl, fset *
 		if strings.HasPrefix(lt, "S_") {
 			c.useStruct(strings.TrimPrefix(lt, "S_"))
 		}
+		if strings.HasPrefix(lt, "R_") {
+			c.useStruct(strings.TrimPrefix(lt, "R_"))
+		}
 		c.vars[n] = lt
 		c.declDepth[n] = 1
 		_, isPtr := t.(*ast.StarExpr)
+		if strings.HasPrefix(lt, "R_") {
+			isPtr = false // a Go.Ref is a value: its target is immutable
+		}
 		if isPtr || strings.HasPrefix(lt, "L_") { // a slice parameter whose elements the body writes is handed back as well
 			ptrs = append(ptrs, n)
 			ptrPos[n] = pos
@@ -2294,13 +2334,16 @@ func (c *leafCtx) translate7(ds *dirState, l leaf7Spec, fd *ast.FuncDecl, fset *
 		params = append(params, "("+leanName(n)+" : "+leanTypeName(lt)+")")
 	}
 	if fd.Recv != nil {
+		c.recvName = fd.Recv.List[0].Names[0].Name
 		addParam(fd.Recv.List[0].Names[0].Name, fd.Recv.List[0].Type, "recv")
 	}
 	i := 0
 	for _, p := range fd.Type.Params.List {
 		for _, n := range p.Names {
 			addParam(n.Name, p.Type, strconv.Itoa(i))
-			i++
+			if !c.logVars[n.Name] {
+				i++
+			}
 		}
 	}
 	info.nparams = i
@@ -2317,6 +2360,10 @@ func (c *leafCtx) translate7(ds *dirState, l leaf7Spec, fd *ast.FuncDecl, fset *
 	if usesRand(fd, c) {
 		c.threads = append(c.threads, "rnd")
 		params = append(params, "(rnd : List UInt8)")
+	}
+	if usesWorld(fd, c) {
+		c.threads = append(c.threads, "w")
+		params = append(params, "(w : Go.World)")
 	}
 	info.threads = append([]string{}, c.threads...)
 	var cbs []string
@@ -2493,6 +2540,29 @@ var leaves7 = []leaf7Spec{
 	{"core/sync", "Run", "sync_Run_correction", "LeafSync"},
 	{"net/ntske", "ServerCookie.Encode", "ntske_ServerCookie_Encode", "LeafNtske"},
 	{"net/ntske", "EncryptedServerCookie.Encode", "ntske_EncryptedServerCookie_Encode", "LeafNtske"},
+	// eighth generation: `for cond {}`, binary.BigEndian.Uint16(b[off:]), b[lo:hi] as a value
+	{"net/ntske", "ServerCookie.Decode", "ntske_ServerCookie_Decode", "LeafNtske"},
+	{"net/ntske", "EncryptedServerCookie.Decode", "ntske_EncryptedServerCookie_Decode", "LeafNtske"},
+	{"net/ntske", "ExportKeys", "ntske_ExportKeys", "LeafNtske"},
+	{"net/nts", "Authenticator.unpack", "nts_Authenticator_unpack", "LeafNts"},
+	{"net/nts", "UniqueIdentifier.unpack", "nts_UniqueIdentifier_unpack", "LeafNts"},
+	{"net/nts", "Cookie.unpack", "nts_Cookie_unpack", "LeafNts"},
+	// eighth generation (leaf8.go): the clock object — recorded system calls with their argument
+	// values, pointers to immutable structs with identity, the expiry goroutine
+	{"driver/clocks", "setOffset", "clocks_setOffset", "LeafClocks"},
+	{"driver/clocks", "setFrequency", "clocks_setFrequency", "LeafClocks"},
+	{"driver/clocks", "SystemClock.Epoch", "clocks_SystemClock_Epoch", "LeafClocks"},
+	{"driver/clocks", "SystemClock.Step", "clocks_SystemClock_Step", "LeafClocks"},
+	{"driver/clocks", "SystemClock.Adjust", "clocks_SystemClock_Adjust", "LeafClocks"},
+	{"driver/clocks", "SystemClock.Adjust#go", "clocks_SystemClock_Adjust_go", "LeafClocks"},
+	{"driver/clocks", "SystemClock.Sleep", "clocks_SystemClock_Sleep", "LeafClocks"},
+}
+
+func init() {
+	for _, n := range []string{"clocks_setOffset", "clocks_setFrequency", "clocks_SystemClock_Step", "clocks_SystemClock_Adjust",
+		"clocks_SystemClock_Adjust_go", "clocks_SystemClock_Sleep"} {
+		forceOut[n] = true
+	}
 }
 
 func emitLeaves7(repo string, parsed map[string][]*ast.File, fset *token.FileSet, leafPath string) {
@@ -2510,10 +2580,27 @@ func emitLeaves7(repo string, parsed map[string][]*ast.File, fset *token.FileSet
 		var body strings.Builder
 		for _, l := range byFile[file] {
 			ds := prepareDir(repo, parsed, fset, l.dir)
+			loadUnixConsts(repo)
 			fd := findFunc(ds.files, l.fn)
+			if strings.HasSuffix(l.fn, "#go") { // the body of the method's go statement (leaf8.go)
+				var why string
+				fd, why = goroutineDecl(ds.files, strings.TrimSuffix(l.fn, "#go"))
+				if fd == nil {
+					withOwner("leaf:"+l.lean, func() { broken("leaf %s.%s: %s", l.dir, l.fn, why) })
+					continue
+				}
+			}
 			if fd == nil {
 				withOwner("leaf:"+l.lean, func() { broken("leaf %s.%s: function not found", l.dir, l.fn) })
 				continue
+			}
+			refProblem := ""
+			for k := range refStructs {
+				if strings.HasPrefix(k, l.dir+":") {
+					if p := checkRefStruct(ds, l.dir, strings.TrimPrefix(k, l.dir+":")); p != "" {
+						refProblem = p
+					}
+				}
 			}
 			run := func(mode int) (*leafCtx, string, *leafInfo) {
 				c := &leafCtx{dir: l.dir, files: ds.files, ev: ds.ev, structs: ds.structs, vars: map[string]string{}, infoOf: ds.infoOf,
@@ -2522,7 +2609,13 @@ func emitLeaves7(repo string, parsed map[string][]*ast.File, fset *token.FileSet
 				return c, def, info
 			}
 			c, def, info := run(modeOut) // discovery: which outcome type does the function need?
-			if c.err == nil {
+			if c.err == nil && c.hasThread("w") && refProblem != "" {
+				c.fail("pointer rendering not faithful: %s", refProblem)
+			}
+			if c.hasThread("w") || c.needPrelude3 {
+				deps["!GoPrelude3"] = true
+			}
+			if c.err == nil && !forceOut[l.lean] {
 				mode := modePure
 				if c.failCount > 0 {
 					mode = modeOpt
@@ -2548,7 +2641,7 @@ func emitLeaves7(repo string, parsed map[string][]*ast.File, fset *token.FileSet
 				changed = false
 				for _, n := range names {
 					for _, f := range ds.structs[n] {
-						for _, part := range strings.FieldsFunc(f[1], func(r rune) bool { return r == ':' }) {
+						for _, part := range strings.FieldsFunc(strings.Replace(f[1], "R_", "S_", 1), func(r rune) bool { return r == ':' }) {
 							if i := strings.Index(part, "S_"); i >= 0 {
 								sn := part[i+2:]
 								if _, isStruct := ds.structs[sn]; isStruct && !c.used[sn] {
@@ -2563,7 +2656,7 @@ func emitLeaves7(repo string, parsed map[string][]*ast.File, fset *token.FileSet
 			}
 			dep := func(a, b string) bool { // struct a mentions struct b
 				for _, f := range ds.structs[a] {
-					if strings.HasSuffix(f[1], "S_"+b) {
+					if strings.HasSuffix(f[1], "S_"+b) || f[1] == "R_"+b {
 						return true
 					}
 				}
@@ -2623,6 +2716,10 @@ func emitLeaves7(repo string, parsed map[string][]*ast.File, fset *token.FileSet
 		}
 		sort.Strings(ds)
 		for _, d := range ds {
+			if d == "!GoPrelude3" {
+				sb.WriteString("import ScionTime.Model.GoPrelude3\n")
+				continue
+			}
 			sb.WriteString("import ScionTime.Gen." + d + "\n")
 		}
 		sb.WriteString("import ScionTime.Model.GoPrelude2\nset_option linter.unusedVariables false\nnamespace ScionTime.Gen.Leaf\nopen ScionTime\n\n")
